@@ -152,6 +152,9 @@ func errKind(err error) string {
 	if _, ok := err.(*sim.PtrError); ok {
 		return "pointer-typed"
 	}
+	if err == errWrapsProto {
+		return "wraps-protocol-exception"
+	}
 	if _, ok := err.(*sim.PtrEOFError); ok {
 		return "pointer-typed-wrapping-EOF"
 	}
